@@ -3,7 +3,9 @@
 ALLOWED_AXIOMS = set()   # every property theorem so far is closed under the global context
 
 TRUSTED_BASE = [
-    "Coq 8.16.1 kernel (coqc); vm_compute used inside proofs by reflexivity on finite tables; no native_compute",
+    "Coq 8.16.1 kernel (coqc); vm_compute used inside proofs by reflexivity on finite tables; no native_compute; coqchk -o on all Props/*.vo "
+    "accepted the development (coqchk_summary.txt: the only axioms in the loaded context are those of the Reals / classical libraries pulled in by "
+    "nsatz - functional_extensionality_dep, classic, sig_not_dec, sig_forall_dec - and no property theorem depends on them: every Print Assumptions is closed)",
     "translators/rs2coq (Rust, syn 3.0.6): the meaning of 'what the source says' for coq/Gen/*.v",
     "extraction with ExtrOcamlBasic directives only (bool, option, unit, list, prod, sumbool, sumor -> OCaml natives); OCaml 4.13.1; ocaml/driver.ml (char <-> ascii glue)",
     "harness/ (Rust): generators, canonical printers, catch_unwind wrapper; the sexp exchange format",
